@@ -59,7 +59,7 @@ def prepare(chk16, ctx, prog, stage, tpl):
     mk("A-private-aes", T(("CKA_CLASS", "CKO_SECRET_KEY"), ("CKA_KEY_TYPE", "CKK_AES"), ("CKA_VALUE", bytes((sd + i) & 0xFF for i in range(32))), ("CKA_TOKEN", True),
                         ("CKA_PRIVATE", True), ("CKA_SENSITIVE", False), ("CKA_EXTRACTABLE", True)))
     mk("B-big-data", T(("CKA_CLASS", "CKO_DATA"), ("CKA_TOKEN", True), ("CKA_PRIVATE", False), ("CKA_VALUE", big), ("CKA_APPLICATION", b"app")))
-    mk("C-cert", T(*base_template("cert_x509", sd)) + T(("CKA_TOKEN", True), ("CKA_PRIVATE", False)))
+    mk("C-cert", T(*base_template("cert_x509", sd)) + T(("CKA_TOKEN", True), ("CKA_PRIVATE", False), ("CKA_ISSUER", big[::-1])))
     for i in range(prog["extra_objs"]):
         mk("X-extra-%d" % i, T(("CKA_CLASS", "CKO_DATA"), ("CKA_TOKEN", True), ("CKA_PRIVATE", bool(i % 2)), ("CKA_VALUE", b"extra-%d" % i * 3)))
     val = bytes((sd * 3 + i * 5) & 0xFF for i in range(prog["size"]))
@@ -205,7 +205,7 @@ def diff(a, b):
     return "; ".join(out[:6]) or "(equal)"
 
 
-TARGET = {"set_large": "B-big-data", "set_small": "C-cert", "set_private": "A-private-aes", "destroy": "C-cert", "copy": None, "create_small": None, "create_large": None,
+TARGET = {"set_large": "C-cert", "set_small": "C-cert", "set_private": "A-private-aes", "destroy": "C-cert", "copy": None, "create_small": None, "create_large": None,
           "create_rsa": None, "create_private": None}
 TARGET.update({c: None for c in KEYPATH})
 
